@@ -756,6 +756,7 @@ func (rn *dbrunner) corpus() error {
 		{"corpus:C10-5-dump-unsessioned-type-with-session", cat(un, pfx(B), put("foo", "code"), dump(""), sess("s"), get("foo"), dump(""))},
 		{"corpus:C10-6-name-too-long", cat(un, pfx(B), put(strings.Repeat("x", 255), "v1"), get(strings.Repeat("x", 255)), get(strings.Repeat("y", 252)), put(strings.Repeat("x", 150), "v2"), get(strings.Repeat("x", 150)))},
 		{"corpus:C10-7-slash-in-session-id", cat(un, pfx(U), sess("a/b"), put("foo", "v1"), get("foo"), sess("ab"), put("foo", "v2"), get("foo"))},
+		{"corpus:C10-8-dump-sessioned-type-without-session", cat(un, pfx(S), put("P1", "v1"), sess("x"), put("a1", "v2"), put("root", "v3"), dump(""), sess(""), get("a1"), dump(""), dump("x"))},
 		// C11 findings
 		{"corpus:C11-1-dot-in-session", cat(un, pfx(U), sess("a"), put("b.c", "A"), sess("a.b"), get("c"), put("c", "B"), sess("a"), get("b.c"), dump(""))},
 		{"corpus:C11-2-empty-session", cat(un, pfx(U), sess("a"), put("k", "A"), sess(""), get("a.k"), dump(""), put("a.k", "B"), sess("a"), get("k"))},
